@@ -181,7 +181,15 @@ func c14Registry() *minify.M {
 		_, err := io.Copy(w, r)
 		return err
 	})
+	// command minifiers: input and output through temporary files, and through the command's standard streams
+	m.AddCmd("text/x-cmd-files", exec.Command("cp", "$in.txt", "$out.txt"))
+	m.AddCmd("text/x-cmd-pipe", exec.Command("cat"))
 	return m
+}
+
+// c14Streaming: minifiers that pass data on while reading, so that how many writes happen depends on the chunking
+func c14Streaming(mt string) bool {
+	return mt == "text/x-copy" || mt == "text/x-cmd-files" || mt == "text/x-cmd-pipe"
 }
 
 type c14FailW struct{}
@@ -224,7 +232,7 @@ func c14Exec(m *minify.M, c c14Case) (bad string) {
 	readerFault := c.rk >= 0
 	writerFault := c.wk >= 0 && c.wk < c.refW
 	judge := func(err error) string {
-		if c.mt == "text/x-copy" {
+		if c14Streaming(c.mt) {
 			writerFault = fw.fired // the number of writes of a streaming minifier depends on the chunking
 		}
 		if fr.over || fw.over {
@@ -310,7 +318,7 @@ func c14Exec(m *minify.M, c c14Case) (bad string) {
 		if fw.over {
 			return "call budget exceeded (livelock)"
 		}
-		if c.mt == "text/x-copy" {
+		if c14Streaming(c.mt) {
 			writerFault = fw.fired
 		}
 		if writerFault {
@@ -452,6 +460,10 @@ func c14Inputs(run *core.Run, maxFile int) []c14Input {
 	for i, n := range []int{1, 100, 4096, 3 * 4096, 70000} {
 		ins = append(ins, c14Input{"text/x-copy", fmt.Sprintf("copy#%d", i), bytes.Repeat([]byte("0123456789abcdef"), n/16+1)[:n]})
 	}
+	for i, n := range []int{1, 90, 5000} {
+		ins = append(ins, c14Input{"text/x-cmd-files", fmt.Sprintf("cmdfiles#%d", i), bytes.Repeat([]byte("payload for cp "), n/15+1)[:n]},
+			c14Input{"text/x-cmd-pipe", fmt.Sprintf("cmdpipe#%d", i), bytes.Repeat([]byte("payload for cat "), n/16+1)[:n]})
+	}
 	// generated JSON texts
 	for i := 0; i < run.N(10, 60); i++ {
 		r := run.CaseRand("json", i, run.N(10, 60)/2)
@@ -590,6 +602,7 @@ func c14RunCases(run *core.Run, cases []c14Case) {
 }
 
 func C14(run *core.Run) {
+	defer scratchTMPDIR("c14tmp")() // the command minifiers leave their temporary files behind
 	ins := c14Inputs(run, run.N(6000, 65536))
 	cases := c14BuildCases(run, ins, false)
 	run.Set("inputs", len(ins))
